@@ -32,6 +32,9 @@ from .eval_call import CallMixin      # noqa: E402
 from .eval_stmt import StmtMixin      # noqa: E402
 
 
+_NOCONST = object()
+
+
 class Evaluator(CallMixin, StmtMixin):
     def __init__(self, run: Any):
         self.run = run
@@ -182,6 +185,8 @@ class Evaluator(CallMixin, StmtMixin):
                     return self.get_attr(v, "data", node)
             return SStr([Frag("OP", ("str", v.cls_name), v, ())])
         if isinstance(v, SObj):
+            if len(v.kinds) > 1 and self.run.__dict__.get("in_raise"):
+                return SStr([Frag("OP", ("str-of", short(v)), {"value": v}, ())])
             if len(v.kinds) > 1:
                 self.split_kinds(v, node)
             (k,) = tuple(v.kinds) if len(v.kinds) == 1 else (None,)
@@ -551,6 +556,9 @@ class Evaluator(CallMixin, StmtMixin):
                 return ci.name
             if attr == "__new__":
                 return SBound(base, "__new__")
+            cv = self.class_const(ci, attr, node)
+            if cv is not _NOCONST:
+                return cv
             raise self.unmodelled(f"class attribute {ci.name}.{attr}", node)
         if isinstance(base, (SObj, SNew, SOpaque)):
             return self.obj_attr(base, attr, node)
@@ -574,6 +582,35 @@ class Evaluator(CallMixin, StmtMixin):
         if isinstance(base, SUnknown):
             raise self.unmodelled(f"attribute `{attr}` of {base!r}", node)
         raise self.unmodelled(f"attribute `{attr}` of {type(base).__name__}", node)
+
+    def class_const(self, ci: Any, attr: str, node: Optional[ast.AST]) -> Any:
+        """A class-level constant `NAME = <immutable value or compiled pattern>` read through the class or an instance; _NOCONST
+        when `attr` is no such thing (assigned on instances anywhere, mutable, or not a constant at all)."""
+        for c in self.prog.mro(ci):
+            if not isinstance(c, ClassInfo) or attr not in c.class_consts:
+                continue
+            if attr in c.methods:
+                return _NOCONST
+            # never rebound through an instance or the class anywhere in the package
+            stored = self.prog.__dict__.get("_stored_attr_names")
+            if stored is None:
+                stored = {n.attr for m in self.prog.modules.values() if m.name.startswith("htmltools") for n in ast.walk(m.tree)
+                          if isinstance(n, ast.Attribute) and isinstance(n.ctx, (ast.Store, ast.Del))}
+                self.prog.__dict__["_stored_attr_names"] = stored
+            if attr in stored:
+                return _NOCONST
+            e = c.class_consts[attr]
+            try:
+                v = self.prog.fold(e, c.module)
+            except NotConst:
+                v = self.eval_module_expr(c.module, e, f"{c.name}.{attr}")
+                ec = v.__dict__.get("extcall") if isinstance(v, SOpaque) else None
+                return v if ec is not None and ec.get("q") == "re.compile" else _NOCONST
+
+            def immutable(x: Any) -> bool:
+                return x is None or isinstance(x, (str, int, float, bool, bytes)) or (isinstance(x, (tuple, frozenset)) and all(immutable(y) for y in x))
+            return v if immutable(v) else _NOCONST
+        return _NOCONST
 
     def obj_attr(self, o: Any, attr: str, node: Optional[ast.AST] = None) -> Any:
         if attr in o.attrs:
@@ -633,6 +670,9 @@ class Evaluator(CallMixin, StmtMixin):
             return SFunc(dc.module, fn, o, dc, None, f"{dc.name}.{attr}")
         # data attribute
         if ci0 is not None:
+            cv = self.class_const(ci0, attr, node)
+            if cv is not _NOCONST:
+                return cv
             ks = self.attr_kinds_from_annotation(ci0, attr)
             if attr == "data" and self.prog.is_subclass(ci0, "UserString"):
                 v: Any = SStr([Frag("OF", (o.uid, getattr(o, "name", o.cls_name if isinstance(o, SNew) else "?")), "TRUSTED", ())])
